@@ -195,6 +195,9 @@ func encodeResults(w io.Writer, runLogs []string, results RunResults,
 		if splitOutputs {
 			stateMap := make(map[string]interface{})
 			for i, state := range description.States {
+				if i >= stateArray.Len(0) {
+					break // fewer state values than state names (e.g. Lag with a lag of zero)
+				}
 				singleState := stateArray.Get([]int{i})
 				stateMap[state] = owjs.JsonSafeValue(singleState)
 			}
